@@ -80,7 +80,7 @@ Qed.
 
 Definition VI (t : table) (v : visit) : Prop :=
   match v with
-  | Walk me child op oi orank =>
+  | Walk _ me child op oi orank =>
       (0 <= orank -> exists j, lookup t op = Some j /\ orank <= irank j) /\
       (child = me \/ NRp t child me) /\ (oi = op \/ NRp t oi op) /\ -1 <= orank
   | UpdParent me np => NRp t me np
@@ -121,7 +121,7 @@ Qed.
 Theorem exec_ok t v : Inv t -> VI t v ->
   exists t' sends, exec t v = Some (t', sends) /\ Inv t' /\ le_tab t t' /\ Forall (VI t') sends.
 Proof.
-  intros HI HV. destruct v as [me child op oi orank|me np|me mitem mrank]; cbn [exec].
+  intros HI HV. destruct v as [cb me child op oi orank|me np|me mitem mrank]; cbn [exec].
   - (* Walk *)
     destruct HV as (A & B & C0 & D).
     set (t1 := ensure t me). assert (I1 : Inv t1) by (apply Inv_ensure, HI). assert (L1 : le_tab t t1) by apply le_tab_ensure.
@@ -144,10 +144,10 @@ Proof.
     assert (PR : exists j, lookup t1 (iparent i) = Some j /\ irank i <= irank j).
     { destruct Hpar as [Hr|(j & Hj & Hl)]; [rewrite Hr; exists i; split; [exact Hi|lia]|]. exists j. split; [exact Hj|apply (lexlt_le _ _ _ _ Hl)]. }
     (* the walk handed over to the other side *)
-    assert (WSwap : VI t1 (Walk op oi (iparent i) me (irank i))).
+    assert (WSwap : VI t1 (Walk cb op oi (iparent i) me (irank i))).
     { cbn. split; [intros _; exact PR|]. split; [exact C1|]. split; [exact MP|lia]. }
     (* the walk handed up to my parent (non-root case) *)
-    assert (WUp : iparent i <> me -> VI t1 (Walk (iparent i) me op oi orank)).
+    assert (WUp : iparent i <> me -> VI t1 (Walk cb (iparent i) me op oi orank)).
     { intros Hn. cbn. split; [exact A1|]. split; [|split; [exact C1|exact D]].
       right. destruct MP as [E|MPn]; [congruence|exact MPn]. }
     destruct ((iparent i =? op) || (iparent i =? oi)).
@@ -162,7 +162,7 @@ Proof.
            assert (Hl : lexlt (irank i) me (irank j) op) by (unfold lexlt; lia).
            destruct (guarded_set_ok t1 me op i j I1 Hi Hj Hl) as (t2 & G & I2 & L2 & Hme2 & Hoth & Hne).
            rewrite G. exists t2. eexists. split; [reflexivity|]. split; [exact I2|]. split; [apply (le_tab_trans _ _ _ L1 L2)|].
-           apply Forall_app. split; [apply S0, L2|]. constructor; [|constructor]. cbn.
+           apply Forall_app. split; [apply S0, L2|]. destruct cb; [constructor|]. constructor; [|constructor]. cbn.
            split; [|split; [lia|]].
            ++ exists {| irank := irank i; iparent := op |}, j. split; [exact Hme2|]. cbn. split; [exact Hne|].
               split; [rewrite Hoth by exact Hne; exact Hj|exact Hl].
@@ -238,20 +238,20 @@ Inductive steps : table * list visit -> table * list visit -> Prop :=
 | steps_refl s : steps s s
 | steps_cons s s1 s2 : step s s1 -> steps s1 s2 -> steps s s2.
 
-Lemma unions_GI es : GI ([], unions es).
+Lemma unions_GI l : GI ([], unionsb l).
 Proof.
-  split; [intros x i H; discriminate|]. cbn. unfold unions. apply Forall_forall. intros v Hv.
-  apply in_map_iff in Hv as ((a, b) & <- & _). cbn. split; [intros H; lia|]. split; [left; reflexivity|]. split; [left; reflexivity|lia].
+  split; [intros x i H; discriminate|]. cbn. unfold unionsb. apply Forall_forall. intros v Hv.
+  apply in_map_iff in Hv as ((cb, (a, b)) & <- & _). cbn. split; [intros H; lia|]. split; [left; reflexivity|]. split; [left; reflexivity|lia].
 Qed.
 
 (* from any set of unions, along every delivery order: the forest stays acyclic with increasing potential, and the
    next delivery - whichever it is - cannot fail a guard or the assertion of resolve_merge *)
-Theorem walk_protocol_safe es s :
-  steps ([], unions es) s ->
+Theorem walk_protocol_safe l s :
+  steps ([], unionsb l) s ->
   Inv (fst s) /\ forall k v, nth_error (snd s) k = Some v -> exists t' sends, exec (fst s) v = Some (t', sends).
 Proof.
   intros H. assert (G : GI s).
-  { remember ([], unions es) as s0 eqn:E0. assert (G0 : GI s0) by (subst; apply unions_GI). clear E0.
+  { remember ([], unionsb l) as s0 eqn:E0. assert (G0 : GI s0) by (subst; apply unions_GI). clear E0.
     induction H as [s|s s1 s2 Hs _ IH]; [exact G0|]. apply IH. apply (step_preserves s s1 G0 Hs). }
   split; [apply G|]. intros k v Hk. destruct s as (t, pool). apply (no_guard_fails t pool k v G Hk).
 Qed.
